@@ -613,3 +613,45 @@ def rule_io_passes_documents_through(model: Model, rule_id: str = 'C19-R5') -> R
                             r.fail(f.qualname, f"{q}({form[:100]})", f.loc(c),
                                    "the value dumped is not the serialised object itself")
     return r
+
+
+def rule_union_writer_keeps_handlers(model: Model, rule_id: str = 'C18-R8') -> RuleResult:
+    """C18: serialising through a union keeps the handlers of the call (the writer picks a converter by runtime type when no member claims the value)."""
+    r = RuleResult(rule_id, "the writers of union-like converters build every converter they need with the union's own handlers "
+                            "(no bare into_data(...) / make_converter(...) of the runtime type)", floor=2)
+    base = 'pane.converters.UnionConverter'
+    fam = [c for c in family(model) if c.qualname == base or model.is_subclass(c.qualname, base)]
+    for cls in fam:
+        f = cls.methods.get('into_data')
+        if f is None:
+            continue
+        cfg = cfg_of(model, f)
+        nz = Normalizer(model, f, cfg)
+        r.analysed.add(f.qualname)
+        for c in ast.walk(f.node):
+            if not isinstance(c, ast.Call):
+                continue
+            q = model.resolve(c.func, f.module, f)
+            if q not in ('pane.convert.into_data', 'pane.convert.from_data', 'pane.convert.convert', MK):
+                continue
+            r.instances += 1
+            passed = [unparse(a) for a in c.args] + [unparse(k.value) for k in c.keywords]
+            ok = any(re.search(r'\bself\.handlers\b', p_) for p_ in passed)
+            # a value that is not of the union's types at all (wrong wrapper class) is outside the property
+            guard_foreign = False
+            n = cfg.node_of(c)
+            if n is not None:
+                for (cid, lb) in cfg.conditions_of(n):
+                    cn = cfg.nodes[cid]
+                    if cn.kind == 'cond' and cn.ast is not None:
+                        text, pos = nz.literal(cn.ast, cn)
+                        if text.startswith('isinstance(VAL, ') and (pos != (lb == 'T')):
+                            guard_foreign = True
+            r.sample({'function': f.qualname, 'call': unparse(c)[:80], 'handlers passed': ok, 'only for foreign values': guard_foreign})
+            if ok or guard_foreign:
+                r.ok()
+            else:
+                r.fail(f.qualname, unparse(c)[:90], f.loc(c),
+                       "a value under a union is serialised by a converter built without the handlers of the call: custom= stops applying "
+                       "inside Optional[...] / Union[...] / ValueOrList[...] on output, although it applies on input")
+    return r
